@@ -106,7 +106,7 @@ Print Assumptions C19_policy_enforced_partial.
    SetSubscriberQoS writes for the new values *)
 Theorem C19_policy_redefinition_applied : forall s n ip d1 u1 b1 p1 d2 u2 b2 p2, n <> [] ->
   let s2 := after_ops s [PolAdd n d1 u1 b1 p1; ApplyPol ip n; PolAdd n d2 u2 b2 p2] in
-  step s2 (PolGet n) = (s2, OPol (Some (d2, u2, b2, p2)), []) /  step s2 (ApplyPol ip n) = step s2 (SetQoS true ip d2 u2 b2 p2).
+  step s2 (PolGet n) = (s2, OPol (Some (d2, u2, b2, p2)), []) /\ step s2 (ApplyPol ip n) = step s2 (SetQoS true ip d2 u2 b2 p2).
 Proof. exact policy_redefinition_applied. Qed.
 Print Assumptions C19_policy_redefinition_applied.
 
